@@ -131,6 +131,42 @@ func c16CanonDoc(doc []byte, cte bool, _ *configuration.Configuration) string {
 	return n.String()
 }
 
+// c16RefStream: small documents exercising the marker/reference tables, valid and invalid
+// (dangling forward reference without any marker, duplicate marker, forward and backward references).
+func c16RefStream(c *fw.Ctx) ([]ev.Event, string) {
+	str := func(x string) ev.Event { return ev.Event{K: ev.STRARR, AT: 1, S: x} }
+	wrap := func(e ...ev.Event) []ev.Event {
+		return append(append([]ev.Event{{K: ev.BD}, {K: ev.VER}}, e...), ev.Event{K: ev.ED})
+	}
+	id := []byte{byte('a' + c.Rng.Intn(3))}
+	switch c.Rng.Intn(6) {
+	case 0:
+		return wrap(ev.Event{K: ev.LIST}, ev.Event{K: ev.REF, B: id}, ev.Event{K: ev.PINT, U: 1}, ev.Event{K: ev.END}), "dangling-forward-ref"
+	case 1:
+		return wrap(ev.Event{K: ev.LIST}, ev.Event{K: ev.REF, B: id}, ev.Event{K: ev.MARK, B: id}, ev.Event{K: ev.PINT, U: 5}, ev.Event{K: ev.END}), "forward-ref"
+	case 2:
+		return wrap(ev.Event{K: ev.MAP}, str("x"), ev.Event{K: ev.MARK, B: id}, ev.Event{K: ev.PINT, U: 5}, str("y"), ev.Event{K: ev.REF, B: id}, ev.Event{K: ev.END}), "backward-ref"
+	case 3:
+		return wrap(ev.Event{K: ev.LIST}, ev.Event{K: ev.MARK, B: id}, ev.Event{K: ev.PINT, U: 1}, ev.Event{K: ev.MARK, B: id}, ev.Event{K: ev.PINT, U: 2}, ev.Event{K: ev.END}), "duplicate-marker"
+	case 4:
+		return wrap(ev.Event{K: ev.MAP}, ev.Event{K: ev.REF, B: id}, ev.Event{K: ev.PINT, U: 1}, ev.Event{K: ev.END}), "dangling-key-ref"
+	default:
+		return []ev.Event{{K: ev.BD}, {K: ev.VER}, {K: ev.RECTYPE, B: id}, str("k"), {K: ev.END}, {K: ev.LIST}, {K: ev.RECORD, B: id}, {K: ev.PINT, U: 1}, {K: ev.END}, {K: ev.RECORD, B: id}, {K: ev.END}, {K: ev.END}, {K: ev.ED}}, "record-wrong-count"
+	}
+}
+
+func c16RefDoc(c *fw.Ctx, cte bool) ([]byte, string) {
+	log, desc := c16RefStream(c)
+	cfg := configuration.New()
+	var doc []byte
+	if cte {
+		doc, _, _ = encodeEvents(ce.NewCTEEncoder(cfg), log)
+	} else {
+		doc, _, _ = encodeEvents(ce.NewCBEEncoder(cfg), log)
+	}
+	return doc, desc
+}
+
 func c16Cfg(c *fw.Ctx) (*configuration.Configuration, string) {
 	cfg := configuration.New()
 	desc := ""
@@ -326,6 +362,10 @@ func runC16(c *fw.Ctx, idx int) {
 			_ = unsupported
 		case 1:
 			doc, tmpl, d := validDoc()
+			if c.Rng.Intn(4) == 0 {
+				doc, d = c16RefDoc(c, cte)
+				tmpl = nil
+			}
 			switch c.Rng.Intn(6) {
 			case 0:
 				if len(doc) > 3 {
@@ -353,24 +393,27 @@ func runC16(c *fw.Ctx, idx int) {
 			}
 			log := gen.Stream(c.Rng, o)
 			desc = "stream"
+			if c.Rng.Intn(4) == 0 {
+				log, desc = c16RefStream(c)
+			}
 			switch c.Rng.Intn(5) {
 			case 0:
 				if len(log) > 3 {
 					log = log[:2+c.Rng.Intn(len(log)-2)]
-					desc = "abandoned-stream"
+					desc = "abandoned-" + desc
 				}
 			case 1:
 				if len(log) > 4 {
 					j := 2 + c.Rng.Intn(len(log)-3)
 					log = append(append(append([]ev.Event{}, log[:j]...), ev.Event{K: ev.END}), log[j:]...)
-					desc = "corrupted-stream"
+					desc = "corrupted-" + desc
 				}
 			}
 			c.Note("C16 %s %s op%d %s %s", kindName, codec, i, desc, short(ev.LogString(log), 1500))
 			if kind == 2 {
 				reused = encodeWith(enc, log)
 				fresh = encodeWith(newEncoder(), log)
-				if desc == "corrupted-stream" {
+				if strings.HasPrefix(desc, "corrupted-") || (kind == 2 && (strings.Contains(desc, "dangling") || strings.Contains(desc, "duplicate") || strings.Contains(desc, "wrong-count"))) {
 					// An encoder driven with an invalid stream (no validator in front) is outside its contract:
 					// the operation only serves to disturb the instance's state and is not compared.
 					c.Inc("dontcare.invalid_stream_into_bare_encoder")
@@ -386,6 +429,9 @@ func runC16(c *fw.Ctx, idx int) {
 			}
 		case 3:
 			doc, _, d := validDoc()
+			if c.Rng.Intn(4) == 0 {
+				doc, d = c16RefDoc(c, cte)
+			}
 			switch c.Rng.Intn(5) {
 			case 0:
 				if len(doc) > 3 {
